@@ -6,6 +6,7 @@ import (
 	"sort"
 	"strconv"
 	"strings"
+	"time"
 
 	dbm "github.com/tendermint/tm-db"
 
@@ -86,13 +87,14 @@ type ticker struct {
 	pending      bool
 	pendingR     int
 	pendingS     cstypes.RoundStepType
+	expiry       int64 // virtual time (ms)
 }
 
 func newTicker() ticker {
 	return ticker{hasLast: true, lastR: 0, lastS: int(cstypes.RoundStepNewHeight), pending: true, pendingR: 0, pendingS: cstypes.RoundStepNewHeight}
 }
 
-func (t *ticker) schedule(r int, s cstypes.RoundStepType) {
+func (t *ticker) schedule(expiry int64, r int, s cstypes.RoundStepType) {
 	if t.hasLast {
 		if r < t.lastR {
 			return
@@ -102,14 +104,14 @@ func (t *ticker) schedule(r int, s cstypes.RoundStepType) {
 		}
 	}
 	t.hasLast, t.lastR, t.lastS = true, r, int(s)
-	t.pending, t.pendingR, t.pendingS = true, r, s
+	t.pending, t.pendingR, t.pendingS, t.expiry = true, r, s, expiry
 }
 
 func (t *ticker) show() string {
 	if !t.pending {
 		return "-"
 	}
-	return fmt.Sprintf("%d/%s", t.pendingR, stepNames[t.pendingS])
+	return fmt.Sprintf("%d/%s@%d", t.pendingR, stepNames[t.pendingS], t.expiry)
 }
 
 // ---- one real node ----
@@ -220,6 +222,10 @@ func newSim(nt *net, w *world, self int) *sim {
 	blockExec := sm.NewBlockExecutor(stateStore, log.NewNopLogger(), proxyApp, mp, evpool)
 	cc := cfg.TestConsensusConfig()
 	cc.SkipTimeoutCommit = false
+	def := cfg.DefaultConsensusConfig()
+	cc.TimeoutPropose, cc.TimeoutProposeDelta = def.TimeoutPropose, def.TimeoutProposeDelta
+	cc.TimeoutPrevote, cc.TimeoutPrevoteDelta = def.TimeoutPrevote, def.TimeoutPrevoteDelta
+	cc.TimeoutPrecommit, cc.TimeoutPrecommitDelta = def.TimeoutPrecommit, def.TimeoutPrecommitDelta
 	cs := consensus.NewState(cc, w.state.Copy(), blockExec, s.bstore, mp, evpool)
 	cs.SetLogger(log.NewNopLogger())
 	cs.SetPrivValidator(&recPV{inner: types.NewMockPVWithParams(w.keys[self], false, false), s: s})
@@ -229,10 +235,17 @@ func newSim(nt *net, w *world, self int) *sim {
 		panic(err)
 	}
 	cs.SetEventBus(s.bus)
-	s.node = consensus.NewVerifNode(cs, func(t consensus.VerifTimeout) {
+	s.node = consensus.NewVerifNodeTimed(cs, func(t consensus.VerifTimeoutD) {
 		if t.Height == 1 {
 			s.event(fmt.Sprintf("to(%d,%s)", t.Round, stepNames[t.Step]))
-			s.tick.schedule(int(t.Round), t.Step)
+			var d int64
+			switch t.Step {
+			case cstypes.RoundStepPropose, cstypes.RoundStepPrevoteWait, cstypes.RoundStepPrecommitWait:
+				// what config.Propose / Prevote / Precommit(round) returned; the NewHeight timeout
+				// (relative to the wall clock) and the NewRound timeout count as 0
+				d = int64(t.Duration / time.Millisecond)
+			}
+			s.tick.schedule(nt.now+d, int(t.Round), t.Step)
 		}
 	})
 	b, _ := s.node.CreateProposalBlock()
@@ -401,6 +414,8 @@ type net struct {
 	logIdx  map[string]int
 	closed  bool
 	synced  bool
+	now     int64
+	skew    int64
 }
 
 func newNet(line string) *net {
@@ -433,11 +448,15 @@ func newNet(line string) *net {
 		}
 		correct = append(correct, int(c))
 	}
-	w := getWorld(powers, prios, prop)
-	if line != cfgLine(w, correct) {
+	skew, err := strconv.ParseInt(m["skew"], 10, 64)
+	if err != nil || skew < 0 {
 		return nil
 	}
-	nt := &net{w: w, correct: correct, logIdx: map[string]int{}}
+	w := getWorld(powers, prios, prop)
+	if line != cfgLine(w, correct, skew) {
+		return nil
+	}
+	nt := &net{w: w, correct: correct, logIdx: map[string]int{}, skew: skew}
 	for _, c := range correct {
 		nt.nodes = append(nt.nodes, newSim(nt, w, c))
 	}
@@ -589,6 +608,24 @@ func (nt *net) maxRound() int {
 		}
 	}
 	return mx
+}
+
+// due: in the synchronous suffix node i's timer may fire only if no other pending timer (of a node
+// that can still act) expires more than skew earlier
+func (nt *net) due(i int) bool {
+	if !nt.synced {
+		return true
+	}
+	s := nt.nodes[i]
+	if !s.live() || !s.tick.pending {
+		return true
+	}
+	for _, o := range nt.nodes {
+		if o.live() && o.tick.pending && o.tick.expiry+nt.skew < s.tick.expiry {
+			return false
+		}
+	}
+	return true
 }
 
 func (nt *net) nodeAnswer(i int) string {
@@ -761,11 +798,17 @@ func (nt *net) apply(op string) string {
 		if nt.synced && !nt.closed {
 			return "not-idle"
 		}
+		if !nt.due(i) {
+			return "not-due"
+		}
 		s := nt.nodes[i]
 		if !s.tick.pending {
 			return "none"
 		}
 		s.tick.pending = false
+		if s.tick.expiry > nt.now {
+			nt.now = s.tick.expiry
+		}
 		r, st := s.tick.pendingR, s.tick.pendingS
 		s.run(func() string { return s.node.HandleTimeout(1, int32(r), st) })
 		nt.closed = false
@@ -818,7 +861,7 @@ func (nt *net) apply(op string) string {
 		if nt.closed {
 			c = 1
 		}
-		return fmt.Sprintf("end decided=%s pending=%s closed=%d R=%d", strings.Join(dec, ","), strings.Join(pend, ","), c, nt.maxRound())
+		return fmt.Sprintf("end decided=%s pending=%s closed=%d R=%d now=%d", strings.Join(dec, ","), strings.Join(pend, ","), c, nt.maxRound(), nt.now)
 	}
 	return "bad-op"
 }
